@@ -1019,6 +1019,35 @@ class Copy:
         return Exp()
 
 
+def acyclic_subtree(pre, n):
+    """Weaker than clean_subtree: entries are nodes and nothing below n lists an
+    ancestor of itself; a node listed by two parents is tolerated."""
+    onpath = set()
+    done = set()
+
+    def walk(x):
+        stack = [(x, 0)]
+        while stack:
+            y, i = stack.pop()
+            c = pre.cells[y]
+            if c is None or not isinstance(c[CH], tuple) or any(not isinstance(k, int) for k in c[CH]):
+                return False
+            if i == 0:
+                if y in onpath:
+                    return False
+                if y in done:
+                    continue
+                onpath.add(y)
+            if i < len(c[CH]):
+                stack.append((y, i + 1))
+                stack.append((c[CH][i], 0))
+            else:
+                onpath.discard(y)
+                done.add(y)
+        return True
+    return walk(n)
+
+
 @kind("delete")
 class Delete:
     def gen(self, g):
@@ -1031,7 +1060,7 @@ class Delete:
 
     def resolve(self, V, op):
         n = V.pick("reg", op["s"], op["n"])
-        if not clean_subtree(V.s, n):
+        if not acyclic_subtree(V.s, n):
             raise Skip("struct")
         return {"n": n}
 
